@@ -142,6 +142,7 @@ type iterState struct {
 	lastSeq    int64
 	statuses   map[string]int32
 	parked     bool
+	sawCancel  bool
 	release    chan struct{}
 	parkPred   func(count int64, st map[string]int32) bool
 }
@@ -308,11 +309,22 @@ func (s *Sys) onEvent(kind, id, phase string) {
 
 func (s *Sys) onIteration(job string, st map[string]int32) {
 	seq := s.Log.NextSeq()
+	afterCancel := s.Log.CancelEntered(job)
 	s.mu.Lock()
 	it := s.iters[job]
 	if it == nil {
 		it = &iterState{}
 		s.iters[job] = it
+	}
+	if afterCancel && !it.sawCancel {
+		it.sawCancel = true
+		cp := make(map[string]int32, len(st))
+		for k, v := range st {
+			cp[k] = v
+		}
+		s.mu.Unlock()
+		s.Log.Add(Event{Kind: KIterAfterCancel, Job: job, Data: cp})
+		s.mu.Lock()
 	}
 	it.count++
 	it.lastSeq = seq
